@@ -191,6 +191,54 @@ def p_rate_zero(b, rate_calls):
     return pred
 
 
+def p_nothing_remaining(b):
+    """Tests implying `len - pos == 0`: `len.saturating_sub(pos) == 0` (or `<= 0`), `pos >= len`, `pos > len` and their mirror
+    images; 'pos' when the true edge implies it, 'neg' when the false edge does."""
+    def has_pos(sl):
+        return sl.has_field("pos") or sl.has_call(r"state::ProgressState::pos", r"portable_atomic::AtomicU64::load")
+
+    def has_len(sl):
+        return sl.has_field("len", PS) or sl.has_call(r"state::ProgressState::len")
+
+    def pred(kind, x):
+        if kind != "bin" or x["op"] not in ("Eq", "Ne", "Gt", "Lt", "Ge", "Le"):
+            return None
+        a, c, op = x["a"], x["b"], x["op"]
+        isz = lambda v: v in (0, "0") and not isinstance(v, bool)
+        flip = {"Gt": "Lt", "Lt": "Gt", "Ge": "Le", "Le": "Ge"}
+        if isz(const_val(c)) or isz(const_val(a)):
+            val = a if isz(const_val(c)) else c
+            if isz(const_val(a)):
+                op = flip.get(op, op)
+            if not isinstance(val, dict) or val.get("k") == "const":
+                return None
+            sl = b.slice(val)
+            arith = [t for t in sl.atoms if t[0] == "binop" and t[1] not in ("Sub", "SubWithOverflow", "SubUnchecked")]
+            subs = [t for t in sl.atoms if t[0] == "binop"] or [k for k in sl.calls if k.matches(r"core::num::<impl \w+>::(saturating_sub|checked_sub)")]
+            other = [k for k in sl.calls if not k.matches(r"core::num::<impl \w+>::(saturating_sub|checked_sub)", r"state::ProgressState::(pos|len)",
+                                                          r"portable_atomic::AtomicU64::load", r"std::option::Option::<T>::(unwrap_or|unwrap_or_default|unwrap)",
+                                                          r"std::convert::(From::from|Into::into)")]
+            if arith or other or not subs or not (has_pos(sl) and has_len(sl)):
+                return None
+            # op is relative to `remaining OP 0`
+            return "pos" if op in ("Eq", "Le") else "neg" if op in ("Ne", "Gt") else None
+        if a.get("k") == "const" or c.get("k") == "const":
+            return None
+        sa, sc = b.slice(a), b.slice(c)
+        plain = lambda sl: not [t for t in sl.atoms if t[0] == "binop"] and not [k for k in sl.calls if not k.matches(
+            r"state::ProgressState::(pos|len)", r"portable_atomic::AtomicU64::load", r"std::convert::(From::from|Into::into)")]
+        if not (plain(sa) and plain(sc)):
+            return None
+        if has_pos(sa) and not has_len(sa) and has_len(sc) and not has_pos(sc):
+            pass                      # pos OP len
+        elif has_len(sa) and not has_pos(sa) and has_pos(sc) and not has_len(sc):
+            op = flip.get(op, op)     # len OP pos  ->  pos OP' len
+        else:
+            return None
+        return "pos" if op in ("Ge", "Gt", "Eq") else "neg" if op in ("Lt", "Le") and op == "Lt" else None
+    return pred
+
+
 # ---- rules ----------------------------------------------------------------------------------------------------
 
 def rule_eta_zero_cases(ctx, crate, rule="R-ETA-ZERO-CASES"):
@@ -215,15 +263,18 @@ def rule_eta_zero_cases(ctx, crate, rule="R-ETA-ZERO-CASES"):
                         "eta never tests `%s`: it returns a rate-derived value although it holds" % cname, cfg)
             continue
         all_holds += holds
+        Rc, _ = K.specialise(b, set(fails), crate)      # what can run while the condition holds (dependent tests folded)
         for k, d in enumerate(live):
-            ok = any(b.edge_dominates(e, d["bb"]) for e in fails)
+            ok = any(b.edge_dominates(e, d["bb"]) for e in fails) or d["bb"] not in Rc
             ctx.check(ok, rule, "live-value-excludes:%s#%d" % (cname, k), b.name, dloc(b, d),
                       "the rate-derived ETA is computed only where `%s` is false" % cname,
                       "eta can return a rate-derived (non-zero) value although `%s` holds" % cname, cfg)
+    # remaining == 0 (position at or past the length) is a zero of `remaining / rate` itself: an early return for it is allowed
+    all_holds += cond_edges(b, crate, p_nothing_remaining(b))[0]
     for k, d in enumerate(zero):
         r = b.reach([0], avoid_edges=all_holds)
         ctx.check(d["bb"] not in r, rule, "zero-only-when-stated#%d" % k, b.name, dloc(b, d),
-                  "the zero ETA is returned only when finished, length unknown or no progress seen",
+                  "the zero ETA is returned only when finished, length unknown, nothing remaining or no progress seen",
                   "eta returns zero on a path where the bar is unfinished, has a length and a non-zero rate", cfg)
     for k, d in enumerate(live):
         sl = def_slice(b, d)
